@@ -286,7 +286,17 @@ def check(cx):
     whole = puts and puts[0][1] and puts[0][1][0] in (P('line'), ('call', 'std::string::String::as_bytes', P('line')),
                                                       ('call', 'core::str::<impl str>::as_bytes', P('line')),
                                                       ('call', 'std::string::String::into_bytes', P('line')))
-    okp = len(puts) == 3 and puts[1:] == want_puts[1:] and puts[0][0] in ('put', 'put_slice', 'extend_from_slice') and whole
+    # the terminator: the bytes appended after the payload, however they are grouped (two put_u8, one slice literal, a named constant)
+    tail = []
+    for nm_, a_ in puts[1:]:
+        v_ = a_[0] if a_ else None
+        if v_ and v_[0] == 'lit' and isinstance(v_[1], int) and nm_ == 'put_u8':
+            tail.append(v_[1])
+        elif v_ and v_[0] == 'lit' and isinstance(v_[1], (bytes, str)) and nm_ in ('put', 'put_slice', 'extend_from_slice'):
+            tail.extend(v_[1] if isinstance(v_[1], bytes) else v_[1].encode())
+        else:
+            tail.append(None)
+    okp = len(puts) >= 2 and tail == [13, 10] and puts[0][0] in ('put', 'put_slice', 'extend_from_slice') and whole
     if not okp:
         r5.violation('IRCLinesCodec::encode|crlf', 'the encoder does not emit exactly <payload> CR LF', loc=fe, found=str(puts)[:200])
     r5.instance('only BufferedLineStream::flush writes to the framed socket')
